@@ -35,7 +35,7 @@ func everyDay(y int, f func(s *calendar.Solar, extra bool)) {
 }
 
 func c13Years(c *ctx) {
-	years := c.yearsFor(c13Boundary, c.argInt("years", 150), 1, 9998)
+	years := c.yearsFor(append(append([]int{}, c13Boundary...), termEdgeYears(c.argInt("edge", 3), false)...), c.argInt("years", 150), 1, 9998)
 	for _, y := range years {
 		if !c.mine(y) {
 			continue
@@ -120,6 +120,12 @@ func c16Years(c *ctx) {
 			names = append(names, starObs(calendar.NewNineStar(i)))
 		}
 		f["names"] = names
+		// the lunar-year object's own year star for the lunar years around this civil year
+		lys := [][]int{}
+		for _, yy := range []int{y - 1, y, y + 1, 1 + (y*7)%3} {
+			try(func() { lys = append(lys, []int{yy, calendar.NewLunarYear(yy).GetNineStar().GetIndex()}) })
+		}
+		f["lys"] = lys
 		// one row per day at noon: lunar year, pillars that select the stars, the stars
 		rows := []obj{}
 		hourDays := map[int]bool{}
